@@ -824,6 +824,171 @@ func bigPushPolling(r *hx.Run, round int) {
 	r.Count("lin:big-push-round")
 }
 
+// region two thread-safe lists ////////////////////////////////////////////////////////////////////////////////////////
+
+// sourceMutated: A.PushBackList(B) / A.PushFrontList(B) while ONE other goroutine mutates the thread-safe source B
+// (removes its elements front to back, then pushes new ones) — the sequence of B's states is therefore known. A
+// whole-list push is one operation of container/list: it must not panic, and the block that arrives in A is B as it
+// was at ONE moment between the start and the end of the call.
+func sourceMutated(r *hx.Run, round int) bool {
+	const mode = "source-mutated"
+	front := round%2 == 1
+	sig := map[string]string{"part": "two-lists", "mode": mode, "push": map[bool]string{false: "pbl", true: "pfl"}[front]}
+	fail := func(what, detail string) {
+		m := map[string]string{"what": what}
+		for k, v := range sig {
+			m[k] = v
+		}
+		r.Fail("thread-safe-list-two-lists", mode+": "+detail, m)
+	}
+	a, b := newTS(), newTS()
+	const n = 40
+	var es []ds.ListElement[int]
+	cur := make([]int, 0, n)
+	for v := 1; v <= n; v++ {
+		es = append(es, b.PushBack(v))
+		cur = append(cur, v)
+	}
+	states := [][]int{append([]int(nil), cur...)}
+	var version atomic.Int64
+	var smu sync.Mutex
+	start := make(chan struct{})
+	writerDone, pushDone := make(chan string, 1), make(chan string, 1)
+	go func() {
+		<-start
+		writerDone <- hx.Safely(func() {
+			for i, e := range es {
+				smu.Lock()
+				if i%5 == 4 {
+					b.PushBack(1000 + i)
+					cur = append(append([]int(nil), cur...), 1000+i)
+				} else {
+					b.Remove(e)
+					next := make([]int, 0, len(cur))
+					for _, v := range cur {
+						if v != i+1 {
+							next = append(next, v)
+						}
+					}
+					cur = next
+				}
+				states = append(states, cur)
+				version.Add(1)
+				smu.Unlock()
+			}
+		})
+	}()
+	var vs, ve int64
+	go func() {
+		<-start
+		pushDone <- hx.Safely(func() {
+			vs = version.Load()
+			if front {
+				a.PushFrontList(b)
+			} else {
+				a.PushBackList(b)
+			}
+			ve = version.Load()
+		})
+	}()
+	close(start)
+	for _, ch := range []chan string{pushDone, writerDone} {
+		select {
+		case p := <-ch:
+			if p != "" {
+				fail("panic", "a whole-list push from a thread-safe list that is mutated at the same time panicked: "+p)
+
+				return false
+			}
+		case <-time.After(20 * time.Second):
+			fail("deadlock", "push / writer of the source still blocked after 20s")
+			linDeadlocks.Add(1)
+
+			return false
+		}
+	}
+	got := a.Values()
+	smu.Lock()
+	defer smu.Unlock()
+	for k := vs; k <= ve+1 && int(k) < len(states); k++ {
+		if sameInts(got, states[k], false) {
+			return true
+		}
+	}
+	fail("torn", fmt.Sprintf("the block that arrived (%d values) is none of the %d states the source went through during the call", len(got), ve+1-vs+1))
+
+	return false
+}
+
+// crossPush: A.PushBackList(B) and B.PushBackList(A) at the same time: both return (no lock-order deadlock), no panic,
+// each list keeps its own elements in front and receives a block of the other's values.
+func crossPush(r *hx.Run, round int) bool {
+	const mode = "cross-push"
+	a, b := newTS(), newTS()
+	const n = 1000 // long enough that the two pushes overlap although the goroutines do not start at the same instant
+	for v := 1; v <= n; v++ {
+		a.PushBack(v)
+		b.PushBack(n + v)
+	}
+	start := make(chan struct{})
+	done := make(chan string, 2)
+	go func() { <-start; done <- hx.Safely(func() { a.PushBackList(b) }) }()
+	go func() { <-start; done <- hx.Safely(func() { b.PushBackList(a) }) }()
+	close(start)
+	for i := 0; i < 2; i++ {
+		select {
+		case p := <-done:
+			if p != "" {
+				r.Fail("thread-safe-list-two-lists", mode+": panicked: "+p, map[string]string{"part": "two-lists", "mode": mode, "what": "panic"})
+
+				return false
+			}
+		case <-time.After(20 * time.Second):
+			r.Fail("thread-safe-list-two-lists", mode+": two thread-safe lists pushing each other never return (each holds its own lock and waits for the other's)",
+				map[string]string{"part": "two-lists", "mode": mode, "what": "deadlock"})
+			linDeadlocks.Add(1)
+
+			return false
+		}
+	}
+	av, bv := a.Values(), b.Values()
+	okA := len(av) == 2*n || len(av) == 3*n
+	okB := len(bv) == 2*n || len(bv) == 3*n
+	for i := 0; i < n && okA && okB; i++ {
+		okA = av[i] == i+1 && av[n+i] == n+1+i
+		okB = bv[i] == n+1+i && bv[n+i] == i+1
+	}
+	if !okA || !okB || (len(av) == 3*n && len(bv) == 3*n) {
+		r.Fail("thread-safe-list-two-lists", fmt.Sprintf("%s: len(A)=%d len(B)=%d, or a block is not the other list's values in order", mode, len(av), len(bv)),
+			map[string]string{"part": "two-lists", "mode": mode, "what": "result"})
+
+		return false
+	}
+
+	return true
+}
+
+func twoLists(r *hx.Run) {
+	n, m := 4000, 200
+	if r.Scale > 1 {
+		n, m = 40000, 2000
+	}
+	for i := 0; i < n && linDeadlocks.Load() < 3; i++ {
+		if !sourceMutated(r, i) {
+			break
+		}
+		r.Count("two-lists:source-mutated")
+	}
+	for i := 0; i < m && linDeadlocks.Load() < 3; i++ {
+		if !crossPush(r, i) {
+			break
+		}
+		r.Count("two-lists:cross-push")
+	}
+}
+
+// endregion ///////////////////////////////////////////////////////////////////////////////////////////////////////////
+
 // concurrentHistories: the forced whole-list-push schedules (every combination of push, source flavour, queued
 // reader, queued writer) and the stress rounds.
 func concurrentHistories(r *hx.Run) {
